@@ -215,7 +215,15 @@ def project_grid_case(kind, method, antialias, seed, with_holes, extra):
     vals = 2.0 * E - 0.5 * N + 0.1 * E * N
     if with_holes:
         vals = vals.copy()
-        vals[rng.randint(0, nn), rng.randint(0, ne)] = np.nan
+        if with_holes == "corner":  # a missing corner block: the hull of the valid nodes is NOT the grid outline
+            vals[: nn // 2, : ne // 2] = np.nan
+        elif with_holes == "edge":  # a band of empty columns on the east side
+            vals[:, -(ne // 3) :] = np.nan
+        elif with_holes == "staircase":
+            for i in range(nn):
+                vals[i, : max(0, ne // 2 - i)] = np.nan
+        else:
+            vals[rng.randint(0, nn), rng.randint(0, ne)] = np.nan
     grid = xr.DataArray(vals, coords={"northing": north, "easting": east}, dims=("northing", "easting"), name=rng.choice(["topo", None]))
     proj = {"affine": lambda e, n: (2.0 * np.asarray(e) + 10.0, 3.0 * np.asarray(n) - 1.0), "monotone": lambda e, n: (np.asarray(e) ** 3 / 10.0 + np.asarray(e), np.exp(np.asarray(n) / 8.0))}[kind]
     with warnings.catch_warnings():
@@ -242,6 +250,8 @@ class ProjectGridCase(Contract):
                 for antialias in (False, True):
                     for _ in range(2 if tier == "thorough" else 1):
                         yield (kind, method, antialias, rng.randint(0, 9999), rng.random() < 0.4, rng.choice([{}, {"shape": (7, 9)}, {"spacing": 0.9}])), {}
+                    # holes that change the hull of the data (border holes), where an extrapolating method would fill the gap
+                    yield (kind, method, antialias, rng.randint(0, 9999), rng.choice(["corner", "edge", "staircase"]), {}), {}
         yield ("affine", "bogus", True, 1, False, {}), {}
 
     def ensures(self, a, r):
@@ -333,3 +343,187 @@ class ProjectGridRejections(Contract):
 
     def ensures(self, a, r):
         return {}
+
+
+# ------------------------------------------------------------------ project_grid: the orchestration (deductive, on stubs)
+
+
+class _Recorder:
+    """Records the calls project_grid makes on its interpolator chain and on convexhull_mask."""
+
+    def __init__(self):
+        self.fit = []
+        self.grid = []
+        self.mask = []
+
+
+def _chain_fit(self, coordinates, data, weights=None):
+    raise NotImplementedError
+
+
+def _chain_grid(self, region=None, shape=None, spacing=None, dims=None, data_names=None, projection=None, coordinates=None, **kwargs):
+    raise NotImplementedError
+
+
+@register
+class ChainFitRecorder(Contract):
+    target = "contracts.hull_c16:_chain_fit"
+    cover_return = False
+
+    def configs(self, tier):
+        return []
+
+    def havoc(self, a):
+        a.self.region_ = (0.0, 1.0, 0.0, 1.0)
+        return a.self
+
+    def ensures(self, a, r):
+        return {}
+
+
+@register
+class ChainGridRecorder(Contract):
+    target = "contracts.hull_c16:_chain_grid"
+    cover_return = False
+
+    def configs(self, tier):
+        return []
+
+    def havoc(self, a):
+        c = ctx()
+        nn, ne = c.fresh("pg_nn", "int"), c.fresh("pg_ne", "int")
+        c.assume(and_(nn >= 1, ne >= 1))
+        names = list(a.data_names) if a.data_names is not None else ["scalars"]
+        dv = {nm: (("northing", "easting"), havoc_array("pg_" + str(k), (nn, ne), "f")) for k, nm in enumerate(names)}
+        return SymDataset(dv, {"easting": havoc_array("pg_e", (ne,), "f"), "northing": havoc_array("pg_n", (nn,), "f")})
+
+    def ensures(self, a, r):
+        return {}
+
+
+def _hull_mask_recorder(data_coordinates, coordinates=None, grid=None, projection=None):
+    raise NotImplementedError
+
+
+@register
+class HullMaskRecorder(Contract):
+    target = "contracts.hull_c16:_hull_mask_recorder"
+    cover_return = False
+
+    def configs(self, tier):
+        return []
+
+    def havoc(self, a):
+        return a.grid.where(new_array(tuple(a.grid[list(a.grid.data_vars)[0]].values.shape), lambda idx: True, "b"))
+
+    def ensures(self, a, r):
+        return {}
+
+
+@register
+class ProjectGrid(Contract):
+    """project_grid's wiring, verified on stubs: which points are projected, fitted, gridded and masked."""
+
+    key = "C16:wiring:verde.projections:project_grid"
+    target = "verde.projections:project_grid"
+    stubs = {
+        "grid_to_table": "verde.utils:grid_to_table",
+        "get_region": "verde.coordinates:get_region",
+        "shape_to_spacing": "verde.coordinates:shape_to_spacing",
+        "check_region": "verde.coordinates:check_region",
+        "Chain.fit": "contracts.hull_c16:_chain_fit",
+        "Chain.grid": "contracts.hull_c16:_chain_grid",
+        "convexhull_mask": "contracts.hull_c16:_hull_mask_recorder",
+    }
+    native_replay = False
+
+    def configs(self, tier):
+        out = []
+        for method in ("linear", "nearest", "cubic"):
+            for antialias in (True, False):
+                out.append({"method": method, "antialias": antialias, "name": "topo"})
+        out += [{"method": "linear", "antialias": True, "name": None}, {"method": "linear", "antialias": False, "name": "topo", "shape": True}, {"method": "nearest", "antialias": True, "name": "topo", "spacing": True, "region": True}]
+        return out
+
+    def setup(self, B, cfg):
+        from pyvc.prelude_xr import SymDataArray
+
+        nn, ne = B.dim("nn", 2), B.dim("ne", 2)
+        grid = SymDataArray(B.array("values", (nn, ne), nan=True), coords={"northing": B.array("n1", (nn,)), "easting": B.array("e1", (ne,))}, dims=("northing", "easting"), name=cfg["name"])
+        kw = dict(method=cfg["method"], antialias=cfg["antialias"])
+        if cfg.get("shape"):
+            kw["shape"] = (B.int("out_nn"), B.int("out_ne"))
+        if cfg.get("spacing"):
+            kw["spacing"] = B.real("out_spacing")
+        if cfg.get("region"):
+            kw["region"] = [B.real("oW"), B.real("oE"), B.real("oS"), B.real("oN")]
+        return (grid, SymProjection()), kw
+
+    def requires(self, a):
+        conds = []
+        if "shape" in a.kwargs:
+            conds += [a.kwargs["shape"][0] >= 2, a.kwargs["shape"][1] >= 2]
+        if "region" in a.kwargs:
+            w, e, s, n = a.kwargs["region"]
+            conds += [w <= e, s <= n]
+        # some cell carries data
+        v = a.grid.values
+        return All(*(conds + [S_exists_valid(v)]))
+
+    def ensures(self, a, r):
+        import verde
+
+        c = ctx()
+        name = a.grid.name if a.grid.name is not None else "scalars"
+        fits = c.ghost.get("contracts.hull_c16:_chain_fit", [])
+        grids = c.ghost.get("contracts.hull_c16:_chain_grid", [])
+        masks = c.ghost.get("contracts.hull_c16:_hull_mask_recorder", [])
+        drops = c.ghost.get("dropna", [])
+        regs = c.ghost.get("verde.coordinates:get_region", [])
+        out = {"one_table_one_fit_one_grid_one_mask": len(fits) == 1 and len(grids) == 1 and len(masks) == 1 and len(drops) == 1 and len(regs) == 1}
+        if not out["one_table_one_fit_one_grid_one_mask"]:
+            return out
+        (fa, _), (ga, gridded), (ma, masked), table = fits[0], grids[0], masks[0], drops[0]
+        src = table.dropna_src
+        m = table.nrows
+        nn, ne = a.grid.values.shape
+        e1, n1 = a.grid.coords["easting"].values, a.grid.coords["northing"].values
+        proj = a.projection
+        pe, pn = fa.coordinates[0], fa.coordinates[1]
+        from pyvc.arr import unflatten
+
+        def cell(t):
+            return unflatten(src(t), (nn, ne))
+
+        out["fitted_points_are_the_projected_easting_northing_of_the_cells_that_carry_data"] = All(
+            pe.shape[0] == m,
+            Forall((m,), lambda t: and_(pe.at(t) == proj.point(e1.at(cell(t)[1]), n1.at(cell(t)[0]))[0], pn.at(t) == proj.point(e1.at(cell(t)[1]), n1.at(cell(t)[0]))[1], not_(a.grid.values.nan_at(*cell(t))))),
+        )
+        fd = fa.data.values if hasattr(fa.data, "values") else fa.data
+        out["fitted_values_are_the_values_of_those_cells"] = Forall((m,), lambda t: fd.at(t) == a.grid.values.at(*cell(t)))
+        chain = fa.self
+        steps = chain.steps
+        want_method = {"linear": verde.Linear, "nearest": verde.KNeighbors, "cubic": verde.Cubic}[a.method]
+        data_region = regs[0][1]
+        region = a.kwargs.get("region", data_region)
+        out["interpolation_method_as_requested"] = isinstance(steps[-1][1], want_method)
+        if a.antialias:
+            okb = len(steps) == 2 and isinstance(steps[0][1], verde.BlockReduce) and steps[0][1].region is data_region
+            out["block_mean_over_the_data_region_first_iff_antialias"] = okb
+            if okb and "spacing" in a.kwargs:
+                out["block_mean_with_the_output_spacing"] = steps[0][1].spacing is a.kwargs["spacing"]
+        else:
+            out["block_mean_over_the_data_region_first_iff_antialias"] = len(steps) == 1
+        out["gridded_on_the_requested_or_data_region_with_the_inputs_name"] = ga.self is chain and ga.region is region and list(ga.data_names) == [name] and (ga.spacing is a.kwargs["spacing"] if "spacing" in a.kwargs else ga.spacing is not None)
+        out["hull_mask_over_the_projected_DATA_points_applied_to_the_gridded_result"] = ma.data_coordinates is fa.coordinates and ma.grid is gridded and ma.coordinates is None
+        out["returns_the_masked_variable_with_the_inputs_name"] = r is masked[name]
+        return out
+
+
+def S_exists_valid(v):
+    """some cell carries data - phrased over the row-major cell number (the table's row index)"""
+    from pyvc.arr import unflatten
+    from pyvc.spec import Exists
+
+    nn, ne = v.shape
+    return Exists((nn * ne,), lambda p: not_(v.nan_at(*unflatten(p, (nn, ne)))))
